@@ -20,8 +20,8 @@ Definition gen_compute_leaf_layout (inputs : LayoutInput T) (style : Style T) (m
     let v_box_sizing_adjustment := (match (box_sizing style) with ContentBox => (v_pb_sum) | _ => (size_ZERO) end) in
     let '(v_node_size, v_node_min_size, v_node_max_size, v_aspect_ratio) := (match v_sizing_mode with
       | ContentSize => (let v_node_size := v_known_dimensions in
-    let v_node_min_size := size_NONE in
-    let v_node_max_size := size_NONE in
+    let v_node_min_size := (size_NONE : Size (option T)) in
+    let v_node_max_size := (size_NONE : Size (option T)) in
     (v_node_size, v_node_min_size, v_node_max_size, None))
       | InherentSize => (let v_aspect_ratio := (aspect_ratio style) in
     let v_style_size := (size_maybe_add_of (maybe_apply_aspect_ratio (size_maybe_resolve_dim (size style) v_parent_size) v_aspect_ratio) v_box_sizing_adjustment) in
